@@ -84,12 +84,13 @@ class Scenario:
         from EasyFEA.Simulations.Solvers import AlgoType
 
         a = cfg["algo"]
+        f = 0.5 if cfg.get("dt_alt") else 1.0  # op "dt": the same scheme defined again with another step
         if a[0] == "elliptic":
             simu.Solver_Set_Elliptic_Algorithm()
         elif a[0] == "parabolic":
-            simu.Solver_Set_Parabolic_Algorithm(a[1], a[2])
+            simu.Solver_Set_Parabolic_Algorithm(a[1] * f, a[2])
         else:
-            simu.Solver_Set_Hyperbolic_Algorithm(a[1], AlgoType[a[0]])
+            simu.Solver_Set_Hyperbolic_Algorithm(a[1] * f, AlgoType[a[0]])
 
     def sides(self, mesh):
         x = mesh.coord
@@ -111,12 +112,27 @@ class Scenario:
         unk = simu.Get_unknowns()
         simu.add_dirichlet(lo, [0.0] * len(unk), unk)
         if cfg["bc"] == 0:
-            simu.add_neumann(hi, [0.4], [unk[-1]])
+            self.load(simu, hi, unk, self.k(cfg))
         elif cfg["bc"] == 1:
-            simu.add_dirichlet(hi, [0.05], [unk[0]])
+            simu.add_dirichlet(hi, [0.05 * self.k(cfg)], [unk[0]])
         else:
             # same number of conditions and of constrained dof entries as variant 1, on other dofs
-            simu.add_dirichlet(hi, [0.03], [unk[-1]])
+            simu.add_dirichlet(hi, [0.03 * self.k(cfg)], [unk[-1]])
+
+    @staticmethod
+    def k(cfg):
+        """load level: 1, or 1.7 once a dynamic observation has been made (so that a time step does not start from equilibrium: mass, damping
+        and step size then matter to the observed solution)"""
+        return 1.7 if cfg.get("kick") else 1.0
+
+    def load(self, simu, hi, unk, f=1.0):
+        # a DISTRIBUTED load on the boundary elements of the side (integrated over the boundary group: its geometric factors are part of the state)
+        if simu.mesh.dim == 3:
+            simu.add_surfLoad(hi, [0.4 * f], [unk[-1]])
+        elif simu.mesh.dim == 2:
+            simu.add_lineLoad(hi, [0.4 * f], [unk[-1]])
+        else:
+            simu.add_neumann(hi, [0.4 * f], [unk[-1]])
 
     def sides_by_index(self, mesh, cfg):
         # node sets are fixed by NODE INDEX of the template (independent of later motions of the coordinates)
@@ -155,7 +171,14 @@ class Scenario:
 
     result_names: list = []
 
+    def kick(self, simu, cfg):
+        if cfg["algo"][0] != "elliptic" and cfg["bc"] is not None and not cfg.get("kick"):
+            cfg["kick"] = True
+            self.apply_bc(simu, cfg)
+
     def observe(self, simu, cfg, solve=True):
+        if solve:
+            self.kick(simu, cfg)
         obs = self.matrices(simu)
         if solve and cfg["bc"] is not None:
             with _quiet():
@@ -171,7 +194,7 @@ class Scenario:
     # -- operations: each mutates the LIVE simulation through its public API and the record cfg
     def ops(self):
         return self.model_ops + ["rho", "rayleighM", "rayleighK", "translate", "rotate", "symmetry", "setcoord", "nudge", "query", "replacemesh", "rebc",
-                                 "algo", "solve_save", "setiter0"] + self.extra_ops
+                                 "algo", "dt", "solve_save", "setiter0"] + self.extra_ops
 
     def apply(self, simu, cfg, op, live):
         """live: dict with 'model' (the live model) etc."""
@@ -261,6 +284,9 @@ class Scenario:
             else:
                 cfg["algo"] = ("elliptic",)
             self.set_algo(simu, cfg)
+        elif op == "dt":
+            cfg["dt_alt"] = not cfg.get("dt_alt", False)
+            self.set_algo(simu, cfg)
         elif op == "solve_save":
             with _quiet():
                 simu.Solve()
@@ -282,6 +308,9 @@ class Scenario:
             self.apply_bc(simu, cfg)
         else:
             self.apply_extra(simu, cfg, op, live)
+        if op in ("translate", "rotate", "symmetry", "setcoord", "nudge"):
+            # a distributed load is integrated when it is entered: the user enters the conditions again on the moved geometry
+            self.apply_bc(simu, cfg)
         # the record follows the live coordinates (the oracle is differential: C08 owns the correctness of motions)
         cfg["coords"] = np.array(simu.mesh.coord, dtype=float)
 
@@ -400,9 +429,9 @@ class HyperScn(Scenario):
         unk = simu.Get_unknowns()
         simu.add_dirichlet(lo, [0.0] * len(unk), unk)
         if cfg["bc"] == 0:
-            simu.add_neumann(hi, [0.02], [unk[-1]])
+            simu.add_neumann(hi, [0.02 * self.k(cfg)], [unk[-1]])
         else:
-            simu.add_dirichlet(hi, [0.01], [unk[0]])
+            simu.add_dirichlet(hi, [0.01 * self.k(cfg)], [unk[0]])
 
     def matrices(self, simu):
         # the tangent system only exists inside a Newton iteration: the observation is the solve (and the state it leaves)
@@ -412,6 +441,7 @@ class HyperScn(Scenario):
         obs = {}
         if cfg["bc"] is None:
             return obs
+        self.kick(simu, cfg)
         try:
             with _quiet():
                 u = simu.Solve()
@@ -525,9 +555,9 @@ class Beam3DScn(BeamScn):
         unk = simu.Get_unknowns()
         simu.add_dirichlet(lo, [0.0] * len(unk), unk)
         if cfg["bc"] == 0:
-            simu.add_neumann(hi, [0.4, 0.25], ["y", "z"])
+            simu.add_neumann(hi, [0.4 * self.k(cfg), 0.25 * self.k(cfg)], ["y", "z"])
         else:
-            simu.add_dirichlet(hi, [0.05, 0.02], ["y", "z"])
+            simu.add_dirichlet(hi, [0.05 * self.k(cfg), 0.02 * self.k(cfg)], ["y", "z"])
 
 
 class PhaseFieldScn(Scenario):
@@ -561,7 +591,7 @@ class PhaseFieldScn(Scenario):
         return Simulations.PhaseField(mesh, model)
 
     def ops(self):
-        return [o for o in super().ops() if o not in ("rayleighM", "rayleighK", "algo", "rho")]
+        return [o for o in super().ops() if o not in ("rayleighM", "rayleighK", "algo", "dt", "rho")]
 
     def apply_bc(self, simu, cfg):
         simu.Bc_Init()
@@ -652,7 +682,7 @@ class InElasticScn(HyperScn):
         return Simulations.InElastic(mesh, model)
 
     def ops(self):
-        return [o for o in Scenario.ops(self) if o not in ("rayleighM", "rayleighK", "algo", "rho")]
+        return [o for o in Scenario.ops(self) if o not in ("rayleighM", "rayleighK", "algo", "dt", "rho")]
 
     def observe(self, simu, cfg, solve=True):
         obs = {}
@@ -725,9 +755,9 @@ class WeakFormsScn(Scenario):
         unk = simu.Get_unknowns()
         simu.add_dirichlet(lo, [0.0], unk)
         if cfg["bc"] == 0:
-            simu.add_neumann(hi, [0.4], unk)
+            simu.add_neumann(hi, [0.4 * self.k(cfg)], unk)
         else:
-            simu.add_dirichlet(hi, [0.05 if cfg["bc"] == 1 else 0.03], unk)
+            simu.add_dirichlet(hi, [(0.05 if cfg["bc"] == 1 else 0.03) * self.k(cfg)], unk)
 
 
 SCENARIOS = {s.name: s for s in (ElasticScn, Elastic3DScn, AnisoScn, ThermalScn, HyperScn, BeamScn, Beam3DScn, PhaseFieldScn, PhaseFieldHDScn, InElasticScn, WeakFormsScn)}
@@ -775,7 +805,7 @@ def describe(tier, seed):
         "bound": f"depth {depth} (observe after each op) / {depth + 1 if tier == 'quick' else depth} (observe at the end)",
         "alphabet": {name: len(SCENARIOS[name]().ops()) for name in QUICK_SCN},
         "assumptions": ["differential oracle: the fresh simulation is given the live coordinates, the live state (u, v, a through the public getters) and the harness's record of parameters/conditions",
-                        "conditions are re-entered after mesh replacement / iteration restore (the mesh setter documents that it re-initialises them)",
+                        "conditions are re-entered after mesh replacement / iteration restore (the mesh setter documents that it re-initialises them) and after every motion of the nodes (distributed loads are integrated when entered)",
                         "phase-field: only the displacement system is compared (the damage system depends on a private history field)",
                         "inelastic: loads stay below the yield stress (a fresh simulation cannot be handed internal variables); observed through Solve() and Svm",
                         "weakforms: no mesh replacement (the model owns a Field bound to the element group); a changed closure coefficient is followed by the documented Need_Update()",
@@ -792,6 +822,8 @@ def _compare(obs_live, obs_fresh, key, where, tolM=1e-11, tolS=1e-8):
             continue
         sc = max(np.abs(b).max(), np.abs(a).max(), 1e-300) if b.size else 1.0
         tol = tolM if k.split(".")[-1] in "KCMF" else tolS
+        if k.split(".")[-1] not in "KCMF":
+            sc = max(sc, 1e-5)  # solutions and results of these scenarios are O(1e-2 .. 10): a field of pure round-off (a = 1e-14 at equilibrium) is not compared digit by digit
         if not (np.all(np.isfinite(a)) and np.all(np.isfinite(b))):
             if np.array_equal(np.isfinite(a), np.isfinite(b)):
                 continue
